@@ -281,17 +281,9 @@ fn answer_inner(line: &str) -> String {
                 Err(e) => loc_err(&e).to_string(),
             }
         }
-        "ext" => {
-            let v = arg!(0);
-            match ExtensionsMap::from_bytes(&v) {
-                Ok(e) => {
-                    let s = e.to_string();
-                    let rt = ExtensionsMap::from_bytes(s.as_bytes()).map_or(false, |y| y == e);
-                    format!("ok {};str={};rt={}", render_ext(&e), esc(s.as_bytes()), b(rt))
-                }
-                Err(e) => loc_perr(&e).to_string(),
-            }
-        }
+        "ext" => ext_resp(&arg!(0)),
+        "extpair" => format!("{} || {}", ext_resp(&arg!(0)), ext_resp(&arg!(1))),
+        "lipair" => format!("{} || {}", li_resp(&arg!(0)), li_resp(&arg!(1))),
         #[cfg(feature = "likely")]
         "max" | "min" => {
             let (l, s, r) = match triple_args(&a) {
@@ -446,6 +438,90 @@ fn answer_inner(line: &str) -> String {
                 ),
                 _ => "err".to_string(),
             }
+        }
+        "route" => {
+            // `route <locale> <k>`: the same abstract value reached along a second route through the safe API;
+            // equality, ordering, hash and text of the two must agree (C12)
+            let v = arg!(0);
+            let k: u32 = a.get(1).and_then(|s| s.parse().ok()).unwrap_or(0);
+            let x = match Locale::from_bytes(&v) {
+                Ok(x) => x,
+                Err(e) => return loc_err(&e).to_string(),
+            };
+            let vs: Vec<Variant> = x.id.variants().cloned().collect();
+            let mut y = x.clone();
+            match k {
+                0 => y.id.set_variants(&vs),
+                1 => {
+                    y.id.clear_variants();
+                    y.id.set_variants(&vs);
+                }
+                2 => {
+                    let (l, s, r, vv, e) = x.clone().into_parts();
+                    match e.parse::<ExtensionsMap>() {
+                        Ok(em) => y = Locale::from_parts(l, s, r, &vv, Some(em)),
+                        Err(_) => return "ok extparsefail".to_string(),
+                    }
+                }
+                3 => match Locale::from_bytes(x.to_string().as_bytes()) {
+                    Ok(z) => y = z,
+                    Err(_) => return "ok reparsefail".to_string(),
+                },
+                4 => {
+                    let li: LanguageIdentifier = x.clone().into();
+                    y = Locale::from(li);
+                    y.extensions = x.extensions.clone();
+                }
+                5 => {
+                    let u = &x.extensions.unicode;
+                    let attrs: Vec<String> = u.attributes().map(|s| s.to_string()).collect();
+                    for a in &attrs {
+                        let _ = y.extensions.unicode.remove_attribute(a);
+                    }
+                    for a in attrs.iter().rev() {
+                        let _ = y.extensions.unicode.set_attribute(a);
+                    }
+                    let keys: Vec<String> = u.keyword_keys().map(|s| s.to_string()).collect();
+                    for k in keys.iter().rev() {
+                        let vals: Vec<String> = u.keyword(k).map(|it| it.map(|s| s.to_string()).collect()).unwrap_or_default();
+                        let _ = y.extensions.unicode.remove_keyword(k);
+                        let _ = y.extensions.unicode.set_keyword(k.clone(), &vals);
+                    }
+                    let t = &x.extensions.transform;
+                    let tkeys: Vec<String> = t.tfield_keys().map(|s| s.to_string()).collect();
+                    for k in tkeys.iter().rev() {
+                        let vals: Vec<String> = t.tfield(k).map(|it| it.map(|s| s.to_string()).collect()).unwrap_or_default();
+                        let _ = y.extensions.transform.remove_tfield(k);
+                        let _ = y.extensions.transform.set_tfield(k.clone(), &vals);
+                    }
+                    if let Some(tl) = t.tlang() {
+                        y.extensions.transform.clear_tlang();
+                        let _ = y.extensions.transform.set_tlang(tl.to_string().parse().unwrap());
+                    }
+                    let tags: Vec<String> = x.extensions.private.tags().map(|s| s.to_string()).collect();
+                    y.extensions.private.clear_tags();
+                    for t in tags.iter().rev() {
+                        let _ = y.extensions.private.add_tag(t);
+                    }
+                }
+                6 => {
+                    y.id.language = x.id.language.as_str().parse().unwrap();
+                    y.id.script = x.id.script.map(|s| s.as_str().parse().unwrap());
+                    y.id.region = x.id.region.map(|s| s.as_str().parse().unwrap());
+                }
+                _ => {
+                    let mut vv: Vec<Variant> = vs.iter().rev().cloned().collect();
+                    vv.extend(vs.iter().cloned());
+                    y = Locale::from_parts(x.id.language, x.id.script, x.id.region, &vv, Some(x.extensions.clone()));
+                }
+            }
+            format!(
+                "ok eq={} cmp={} he={} se={}",
+                b(x == y),
+                ord(x.cmp(&y)),
+                b(hash_of(&x) == hash_of(&y)),
+                b(x.to_string() == y.to_string())
+            )
         }
         "eqstr" => {
             let x = arg!(0);
@@ -858,6 +934,28 @@ fn answer_inner(line: &str) -> String {
             format!("{} | {} | {}", r1, r2, r3)
         }
         _ => "na".to_string(),
+    }
+}
+
+fn ext_resp(v: &[u8]) -> String {
+    match ExtensionsMap::from_bytes(v) {
+        Ok(e) => {
+            let s = e.to_string();
+            let rt = ExtensionsMap::from_bytes(s.as_bytes()).map_or(false, |y| y == e);
+            format!("ok {};str={};rt={}", render_ext(&e), esc(s.as_bytes()), b(rt))
+        }
+        Err(e) => loc_perr(&e).to_string(),
+    }
+}
+
+fn li_resp(v: &[u8]) -> String {
+    match LanguageIdentifier::from_bytes(v) {
+        Ok(li) => {
+            let s = li.to_string();
+            let rt = LanguageIdentifier::from_bytes(s.as_bytes()).map_or(false, |y| y == li);
+            format!("ok {};str={};rt={}", render_li(&li), esc(s.as_bytes()), b(rt))
+        }
+        Err(e) => li_err(&e).to_string(),
     }
 }
 
